@@ -57,6 +57,27 @@ func c06HTTP(c *vlib.Ctx) {
 				w.Header().Set("Location", "/s/200")
 			}
 			w.WriteHeader(n)
+		case strings.HasPrefix(r.URL.Path, "/trunc/"):
+			// complete status line and headers, then a body that ends before the announced length
+			n, _ := strconv.Atoi(strings.TrimPrefix(r.URL.Path, "/trunc/"))
+			if hj, ok := w.(http.Hijacker); ok {
+				conn, buf, err := hj.Hijack()
+				if err == nil {
+					fmt.Fprintf(buf, "HTTP/1.1 %d X\r\nContent-Length: 64\r\nContent-Type: text/plain\r\n\r\nshort", n)
+					_ = buf.Flush()
+					_ = conn.Close()
+				}
+			}
+		case strings.HasPrefix(r.URL.Path, "/badchunk/"):
+			n, _ := strconv.Atoi(strings.TrimPrefix(r.URL.Path, "/badchunk/"))
+			if hj, ok := w.(http.Hijacker); ok {
+				conn, buf, err := hj.Hijack()
+				if err == nil {
+					fmt.Fprintf(buf, "HTTP/1.1 %d X\r\nTransfer-Encoding: chunked\r\n\r\n5\r\nhello\r\nZZ\r\n", n)
+					_ = buf.Flush()
+					_ = conn.Close()
+				}
+			}
 		case r.URL.Path == "/slow":
 			select {
 			case <-r.Context().Done():
@@ -81,6 +102,10 @@ func c06HTTP(c *vlib.Ctx) {
 	var tgts []tgt
 	for _, code := range []int{200, 201, 204, 301, 302, 307, 308, 304, 400, 404, 408, 410, 429, 500, 502, 503} {
 		tgts = append(tgts, tgt{fmt.Sprintf("%s/s/%d", srv.URL, code), pushcheck.Behaviour{Status: code}})
+	}
+	// the status decides the outcome even when the response body cannot be read to its end
+	for _, code := range []int{200, 202, 404, 500} {
+		tgts = append(tgts, tgt{fmt.Sprintf("%s/trunc/%d", srv.URL, code), pushcheck.Behaviour{Status: code}}, tgt{fmt.Sprintf("%s/badchunk/%d", srv.URL, code), pushcheck.Behaviour{Status: code}})
 	}
 	tgts = append(tgts, tgt{srv.URL + "/slow", pushcheck.Behaviour{Err: "timeout"}}, tgt{raw101, pushcheck.Behaviour{Status: 101}}, tgt{refused, pushcheck.Behaviour{Err: "net"}},
 		tgt{"ftp://127.0.0.1/x", pushcheck.Behaviour{Err: "policy"}})
